@@ -38,6 +38,11 @@ SPECS = {
     "Formula(a='x + z', b={'lhs': 'y', 'rhs': 'w'})": (lambda: Formula(a="x + z", b={"lhs": "y", "rhs": "w"}), "ywxz"),
     "Formula('x', extra='z')": (lambda: Formula("x", extra="z"), "xz"),
     "Formula(lhs='y', rhs=('x', 'z'))": (lambda: Formula(lhs="y", rhs=("x", "z")), "yxz"),
+    # a part without columns, and nested tuples
+    "y ~ x | 0": (lambda: Formula("y ~ x | 0"), "yx"),
+    "y + z ~ 0": (lambda: Formula("y + z ~ 0"), "yz"),
+    "Formula(('x', ('z', 'y')))": (lambda: Formula(("x", ("z", "y"))), "yxz"),
+    "Formula(lhs='y', rhs=('x', ('z', 'w')))": (lambda: Formula(lhs="y", rhs=("x", ("z", "w"))), "ywxz"),
 }
 
 
